@@ -70,7 +70,7 @@ MIRRORS = {
     ],
     "C12": [
         ("c19", "_r3_input", ("C12.X",), ALL, "every reader is told the format detected from the file's content: a corrupted record cannot be re-interpreted as another format by a worker"),
-        ("c14", "r1_r2_header", (), _has("unrolled loop", "tail loop", "validity"), "an invalid quality character is rejected at every position"),
+        ("c14", "r1_r2_header", (), _has("unrolled loop", "tail loop", "validity", "every character"), "an invalid quality character is rejected at every position, and the rejection reaches the user as an error"),
     ],
     "C15": [
         ("c08", "r3_bestof", (), ALL, "with indexed barcodes the adapter whose name selects the file is the adapter of the best match"),
@@ -208,3 +208,22 @@ _extend("C09", [("c08", "r4_eligibility", (), ALL, "adapters that need the align
                 ("c18", "r4_precedence", (), ALL, "required/optional of a linked adapter's parts are its own: parameters of another specification do not leak into it"),
                 ("c03", "r5_actions", (), _has("times"), "actions that use the coordinates of the last match (retain, crop) are not combined with several rounds, whose later coordinates refer to an already trimmed read")])
 _extend("C15", [("c04", "r8_claimed_before_open", (), ALL, "no two demultiplexing writers (or a demultiplexing writer and another output) share a file")])
+_extend("C04", [("c20", "r3_no_early_exit", (), ALL, "the with-adapter and quality-trimmed counts of BOTH mates reach the report")])
+_extend("C15", [("c06", "r5_pickle", (), _has("ProxyRecordWriter"), "demultiplexed files get the format of their name also in spawned workers (the writer's format survives pickling)")])
+
+# sixth round
+_extend("C02", [("c18", "r1_options", (), ALL, "-b/-B adapters are searched as 'anywhere' adapters, -a/-A as 3', -g/-G as 5'")])
+_extend("C06", [("c12", "r1_total", (), _has("ReaderProcess"), "a reader that fails must not release the workers as if the input had ended: the multi-core run would exit 0 with truncated output where one core fails")])
+_extend("C07", [("c01", "r6_comparers", (), ALL, "aligner/comparers and the prefilter derive the number of allowed errors from the same expression int(rate * length)"),
+                ("c01", "r1_min_overlap_clamp", (), ALL, "the prefilter is built with the minimum overlap the aligner uses")])
+_extend("C08", [("c01", "r8_tables", (), ALL, "the one-by-one comparison treats read characters exactly as the index's ACGT strings do (no extra equivalences)")])
+_extend("C09", [("c03", "r4_intervals", (), ALL, "the union of the removed parts over all rounds (remainder) is what non-trim actions are applied to"),
+                ("c07", "r3_windows", (), ALL, "a later round or a competing adapter is not lost to the prefilter")])
+_extend("C11", [("c16", "paired", (), lambda o: o.rule == "C16.R3", "the trimmed/untrimmed filters see the matches of the orientation that was kept, on the info of the read they belong to"),
+                ("c20", "r1_register", (), ALL, "every action (also 'none') records the matches the trimmed/untrimmed filters look at"),
+                ("builder_rules", "c10", ("quick",), lambda o: o.rule == "C10.R2" and ("max-expected-errors" in o.construct or "max-average-error-rate" in o.construct or "max-n" in o.construct), "a threshold of 0 still installs its filter")])
+_extend("C16", [("c20", "r6_per_adapter_values", (), ALL, "the count of reverse-complemented reads shown for an adapter is that adapter's own")])
+_extend("C17", [("c06", "r5_pickle", (), _has("Aligner", "Comparer"), "the error counts printed by spawned workers are computed with the configured wildcard flags")])
+_extend("C18", [("c07", "r3_windows", (), ALL, "an error rate given in a specification is honoured for short partial occurrences too"),
+                ("c09", "r4_linked", (), ALL, "a required part that is missing leaves the read untouched")])
+_extend("C03", [("c09", "r2_rounds", (), ALL, "every match that removed something is in the list the mask/lowercase/retain/crop helpers work on")])
